@@ -29,8 +29,10 @@ def run_translator():
     """Regenerate lean/StunVerif/Gen/Source.lean from /repo's working tree.  Returns the
     translator's report (items extracted / fallen back)."""
     sys.path.insert(0, os.path.join(VERIF, "tools"))
-    import extract_source
-    return extract_source.generate(REPO, os.path.join(LEAN, "StunVerif", "Gen"))
+    import extract_source, extract_fns
+    rep = extract_source.generate(REPO, os.path.join(LEAN, "StunVerif", "Gen"))
+    rep2 = extract_fns.generate(REPO, os.path.join(LEAN, "StunVerif", "Gen"))
+    return dict(extracted=rep["extracted"] + rep2["extracted"], fallback=rep["fallback"] + rep2["fallback"])
 
 
 # ------------------------------------------------------------------------------- lean
